@@ -221,6 +221,7 @@ def run(ctx):
     ctx.extra["model_conformance"] = round(1 - len(rejected) / max(1, len(records)), 4)
     ctx.extra["traces_rejected_by_spec"] = [dict(meta[t], rejected_at=v) for t, v in list(rejected.items())[:5]]
     real_runs(ctx, rng)
+    replay_fault_behaviours(ctx, rng)
     for e in events[:: max(1, len(events) // 5)][:5]:
         ctx.sample({k: v for k, v in e.items() if k not in ("lines1", "lines2")})
     ctx.assumptions += [
@@ -228,6 +229,123 @@ def run(ctx):
         "gzip container completeness is known by construction (every proper prefix of a gzip stream is incomplete)",
         "virtual runs: 'never hangs' == the scheduler always finds a runnable process until main returns; real runs: 60 s bound",
     ]
+
+
+def fault_input(rng, nc, fault):
+    """An input that the reader cuts into nc chunks and that carries the fault TLC chose:
+    badchunk at i   -> a record inside chunk i whose '+' line is damaged (same length: the chunking is unchanged)
+    readerfail at k -> k < nc: a record larger than the buffer placed where chunk k begins (the reader cannot
+                       produce chunk k); k = nc: paired input whose second file holds one record more (the reader
+                       notices after the last chunk)
+    startfail       -> a file whose format cannot be recognised
+    Returns (recs, recs2, d1, d2, buffer size) or None if the construction does not verify."""
+    import io
+    import dnaio
+    from harness.props.C06 import input_with_chunks
+    paired = fault["kind"] == "readerfail" and fault["at"] == nc
+    reads, reads2, bs = input_with_chunks(rng, nc, paired)
+    d1 = fastq_bytes(reads)
+    d2 = fastq_bytes(reads2) if paired else None
+    if fault["kind"] == "startfail":
+        return reads, reads2, b"this is not a sequence file\nat all\n", None, bs
+    if paired:
+        extra = ("read999 2:N:0:ACGT", "ACGTACGT", "IIIIIIII")
+        d2x = d2 + fastq_bytes([extra])
+        got = 0
+        try:
+            for _c in dnaio.read_paired_chunks(io.BytesIO(d1), io.BytesIO(d2x), bs):
+                got += 1
+            return None
+        except Exception:  # noqa
+            if got != nc:
+                return None                # (the extra record changed the chunking: not the fault TLC chose)
+        return reads, reads2, d1, d2x, bs
+    lens = RC.chunk_lengths(d1, bs)
+    assert len(lens) == nc
+    off = sum(lens[: fault["at"]])
+    if fault["kind"] == "badchunk":
+        k = d1.find(b"\n+\n", off, off + lens[fault["at"]])
+        if k < 0:
+            return None
+        new = d1[: k + 1] + b"-" + d1[k + 2:]
+        if RC.chunk_lengths(new, bs) != lens:
+            return None
+        return reads, reads2, new, None, bs
+    huge = b"@huge\n" + b"A" * bs + b"\n+\n" + b"I" * bs + b"\n"
+    new = d1[:off] + huge + d1[off:]
+    got = []
+    try:
+        for c in dnaio.read_chunks(io.BytesIO(new), bs):
+            got.append(len(c))
+        return None                      # the reader would not fail
+    except Exception:  # noqa
+        if got != lens[: fault["at"]]:
+            return None
+    return reads, reads2, new, None, bs
+
+
+def replay_fault_behaviours(ctx, rng):
+    """spec -> code with faults: behaviours TLC hands out for Runner with a fault chosen in the initial state are
+    executed step by step by the real runner (virtual scheduler, ScriptPolicy) on an input that carries that fault.
+    Every hook event must be the event of the scheduled action (divergence lowers the conformance figure, R1);
+    the observed outcome is judged by the same end-to-end clauses as every other execution."""
+    n = 24 if ctx.quick else 600
+    done = diverged = skipped = 0
+    examples, events = [], []
+    kinds = {}
+    for cfgname, nw, nc, share in (("MC_Runner_simfault.cfg", 2, 3, 0.6), ("MC_Runner_simfault34.cfg", 3, 4, 0.4)):
+        behs = RC.simulate_behaviours(ctx, cfgname, max(1, int(n * share)), depth=150, seed=ctx.seed + 10 * nw, with_fault=True)
+        for bi, (beh, fault) in enumerate(behs):
+            made = None
+            for _try in range(6):
+                made = fault_input(rng, nc, fault)
+                if made is not None:
+                    break
+            if made is None or not beh or beh[-1][0] != "MExc":
+                skipped += 1               # (a behaviour cut off by the depth bound before the failure surfaced)
+                continue
+            recs, recs2, d1, d2, bs = made
+            paired = d2 is not None
+            inputs = {"in1.fastq": d1}
+            if paired:
+                inputs["in2.fastq"] = d2
+            argv = ["-j", str(nw), "--buffer-size", str(bs), "-u", "2"] + \
+                (["-U", "2", "-o", "o1.fastq", "-p", "o2.fastq", "in1.fastq", "in2.fastq"] if paired else ["-o", "o1.fastq", "in1.fastq"])
+            steps, readies = RC.script_of(beh)
+            pol = vmp.ScriptPolicy(steps, seed=bi, ready_lists=readies)
+            res, sched = RC.run_virtual(argv, inputs, os.path.join(ctx.scratch, "fb"), pol)
+            deadlock = sched.deadlock
+            if isinstance(res, Exception):
+                res = None
+            desc = f"tlc behaviour with fault {fault['kind']} at {fault['at']} (nw={nw}, nc={nc})"
+            kinds[fault["kind"]] = kinds.get(fault["kind"], 0) + 1
+            e = dict(id=len(events), desc=desc, cores=nw, argv=" ".join(argv), paired=paired, container_ok=True,
+                     lines1=split_lines(d1), lines2=split_lines(d2) if paired else [], hung=bool(deadlock or res is None))
+            if res is None or deadlock:
+                e.update(exit=-9, message=False, out1=[], out2=[])
+            else:
+                crashed = res.exception is not None
+                e.update(exit=(res.exit if not crashed else 1), message=bool(res.errors) or crashed,
+                         out1=match_output(res.files.get("o1.fastq", b"") or b"", recs),
+                         out2=match_output(res.files.get("o2.fastq", b"") or b"", recs2) if paired else [])
+            e["policy"] = "TLC behaviour: " + " ".join("/".join(map(str, x)) for x in beh)[:600]
+            events.append(e)
+            done += 1
+            ok = pol.mismatch is None and pol.ptr == len(steps) and len(sched.log) == len(beh) and \
+                all(RC.event_matches(lab, ev) for lab, ev in zip(beh, sched.log))
+            if not ok:
+                diverged += 1
+                if len(examples) < 3:
+                    examples.append(dict(fault=fault, argv=e["argv"], mismatch=pol.mismatch, consumed=pol.ptr, of=len(steps),
+                                         behaviour=[" ".join(map(str, x)) for x in beh],
+                                         events=[f"{x['role']}:{x['ev']}" for x in sched.log]))
+    judge(ctx, events)
+    ctx.traces += done
+    ctx.extra["tlc_fault_behaviours_replayed"] = done
+    ctx.extra["tlc_fault_behaviours_by_kind"] = kinds
+    ctx.extra["tlc_fault_behaviours_skipped"] = skipped
+    ctx.extra["tlc_fault_behaviours_diverged"] = diverged
+    ctx.extra["tlc_fault_behaviour_divergence_examples"] = examples
 
 
 def real_runs(ctx, rng):
